@@ -181,6 +181,19 @@ def symbolic_case(ctx, idx, rng):
     chains = [gen.rand_chain(rng, L, nops=3, charges=False) for _ in range(int(rng.integers(1, 8)))]
     g = ptn.OpGraph.from_opchains(chains, L, 0)
     g2 = gen.rand_graph(rng, L, idbase=int(rng.integers(0, 3)), charges=False)
+    # the graph handed to from_opgraph / as_matrix: compiled from chains, hand-built with ids and edge lists in arbitrary order, grown by two additions, or flipped
+    src = ('compiled', 'hand-built', 'two-additions', 'flipped')[(idx // 3) % 4]
+    if src == 'compiled':
+        gx = g
+    elif src == 'hand-built':
+        gx = g2
+    elif src == 'two-additions':
+        gx = copy.deepcopy(g)
+        gx.add(gen.rand_graph(rng, L, idbase=int(rng.integers(0, 3)), charges=False))
+        gx.add(gen.rand_graph(rng, L, idbase=int(rng.integers(0, 3)), charges=False))
+    else:
+        gx = copy.deepcopy(g2)
+        gx.flip()
     d = 2
     opmap = {k: rng.normal(size=(d, d)) for k in range(0, 4)}
     qd = np.zeros(d, dtype=int)
@@ -201,9 +214,9 @@ def symbolic_case(ctx, idx, rng):
         'from_opchains': (lambda: ptn.OpGraph.from_opchains(chains, L, 0), [chains]),
         'from_optrees': (lambda: ptn.OpGraph.from_optrees(trees, L, 0), [trees]),
         'from_automaton': (lambda: ptn.OpGraph.from_automaton(au, L), [au]),
-        'from_opgraph': (lambda: ptn.MPO.from_opgraph(qd, g, opmap, compute_nid_map=True), [qd, g, opmap]),
+        'from_opgraph': (lambda: ptn.MPO.from_opgraph(qd, gx, opmap, compute_nid_map=True), [qd, gx, opmap]),
         'graph-add': (lambda: copy.deepcopy(g).add(g2), [g2]),
-        'graph-as_matrix': (lambda: g.as_matrix(opmap), [g, opmap]),
+        'graph-as_matrix': (lambda: gx.as_matrix(opmap), [gx, opmap]),
         'chain-padded': (lambda: c0.padded(L, 0), [c0]),
         'chain-as_matrix': (lambda: c0.as_matrix(opmap), [c0, opmap]),
         'tree-as_matrix': (lambda: trees[0].as_matrix(opmap), [trees, opmap]),
@@ -213,7 +226,7 @@ def symbolic_case(ctx, idx, rng):
     }
     names = sorted(ops)
     pick = [names[(idx + k * 5) % len(names)] for k in range(4)]
-    ctx.case(('symbolic', f'L{L}') + tuple(sorted(set(pick))), sample={'ops': pick, 'L': L})
+    ctx.case(('symbolic', f'L{L}', 'graph-' + src) + tuple(sorted(set(pick))), sample={'ops': pick, 'L': L, 'graph_source': src})
     for nm in pick:
         f, operands = ops[nm]
         ctx.cur_info = {'operation': nm, 'L': L}
